@@ -54,6 +54,8 @@ def main():
                 res = {("ERROR", f"internal {type(e).__name__}: {e}"[:200])}
             out.append((res, rec))
         new = out[1][0] - out[0][0]
+        # a crash of the rule itself is never 'silent', even where the base tree crashes alike
+        new |= {x for x in out[1][0] if x[0] == "ERROR" and x[1].startswith("internal")}
         if new:
             bad += 1
             for site, c in sorted(new):
